@@ -28,6 +28,14 @@ def passwords(maxlen):
     return out + EXTRA
 
 
+RAW = [b"\xfcber-geheim", b"geh\xe9im", b"\xff\xfe\xfd\xfc", b"pa\xc3ss", b"x\x80", b"\xe2\x82", b"R4w-\xfcber-geheim", b"\xfc"]
+
+
+def raw_reference(p):
+    """same length, also undecodable, but other bytes at other places"""
+    return (b"\xf8" + b"y" * (len(p) - 1)) if p[:1] != b"\xf8" else (b"y" * (len(p) - 1) + b"\xf9")
+
+
 def klass(p):
     """passwords are compared within the same class: same length, same length after the line protocol's rstrip"""
     return (len(p), len(p.rstrip()), len(p.encode("utf-8")) if len(p) > 50 else 0)
@@ -44,7 +52,7 @@ def users(a, base, table_pw):
 
 def scenario(shape, spelling, p, via_client):
     """returns (log text, outcome codes)"""
-    table_pw = p if shape in ("accept", "retry") else "Other-Password-1"
+    table_pw = p if shape in ("accept", "retry") and isinstance(p, str) else "Other-Password-1"
     # the line protocol strips trailing blanks, so such a password can never be accepted: keep the shape but
     # the outcome is part of the comparison
     with logcap.capture() as cap:
@@ -69,7 +77,7 @@ def scenario(shape, spelling, p, via_client):
                     codes.append("hang")
             else:
                 rig.ev(0, "@connect")
-                line = f"{spelling} {p}"
+                line = f"{spelling} {p}" if isinstance(p, str) else spelling.encode() + b" " + p + b"\r\n"
                 hist = {
                     "accept": ["USER bob", line],
                     "reject": ["USER bob", line],
@@ -80,7 +88,16 @@ def scenario(shape, spelling, p, via_client):
                     "unknown-user": ["USER nobody", line, "USER bob", line],
                 }[shape]
                 for h in hist:
-                    r = rig.ev(0, h)
+                    if isinstance(h, bytes):
+                        sess = rig.sessions[0]
+                        if sess.closed():
+                            codes.append(["<closed>"])
+                            continue
+                        sess.send(h)
+                        rig.world.settle()
+                        r = sess.ctl.take_replies()
+                    else:
+                        r = rig.ev(0, h)
                     codes.append([c for c, _ in (r or [])])
                 rig.ev(0, "QUIT")
             rig.world.settle(0)
@@ -89,7 +106,38 @@ def scenario(shape, spelling, p, via_client):
             rig.close()
 
 
+def raw_work(item):
+    """passwords that are not valid in the server's encoding (a client using another encoding): the log must not
+    depend on which bytes they contain"""
+    shape, spelling, pws = item
+    part = report.Partial()
+    for p in pws:
+        log, codes = scenario(shape, spelling, p, False)
+        rlog, rcodes = scenario(shape, spelling, raw_reference(p), False)
+        part.evaluations += 1
+        part.traces += 2
+        part.transitions += len(codes)
+        part.states.add(report.fp([shape, spelling, "raw", p.decode("latin-1")]))
+        part.nontrivial.add(report.fp([shape, spelling, "raw", p.decode("latin-1")]))
+        sig = {"kind": None, "shape": shape, "spelling": spelling, "raw_bytes": True}
+        rp = {"shape": shape, "spelling": spelling, "via_client": False, "raw": p.decode("latin-1")}
+        if codes == rcodes and log != rlog:
+            a_l, b_l = log.split("\n"), rlog.split("\n")
+            diff = next(((x, y) for x, y in zip(a_l, b_l) if x != y), ("<length>", "<length>"))
+            sig["kind"] = "log-depends-on-password"
+            part.violation(sig, {"password_repr": repr(p), "log_line": diff[0][:200], "reference_line": diff[1][:200]}, replay=rp)
+        for variant in (p.decode("latin-1"), p.decode("utf-8", "replace"), repr(p)[2:-1]):
+            if len(variant) >= 4 and variant in log:
+                sig["kind"] = "password-literal-in-log"
+                part.violation(sig, {"password_repr": repr(p), "as": variant}, replay=rp)
+                break
+    part.sample({"shape": shape, "spelling": spelling, "raw_passwords": [repr(x) for x in pws[:3]]}, limit=1)
+    return part
+
+
 def work(item):
+    if len(item) == 3:
+        return raw_work(item)
     shape, spelling, via_client, pws = item
     part = report.Partial()
     refs = {}
@@ -138,6 +186,9 @@ def build_items(tier):
     for shape in ("accept", "reject"):
         for i in range(0, len(pws), chunk):
             items.append((shape, "PASS", True, pws[i:i + chunk]))
+    for shape in ("reject", "before-user", "after-login", "retry"):
+        for sp in SPELL:
+            items.append((shape, sp, RAW))
     return items
 
 
@@ -163,6 +214,9 @@ def run(tier, seed, t0):
 def replay(path):
     data = json.loads(open(path).read())
     rp = data["replay"]
-    part = work((rp["shape"], rp["spelling"], rp["via_client"], [rp["password"]]))
+    if "raw" in rp:
+        part = raw_work((rp["shape"], rp["spelling"], [rp["raw"].encode("latin-1")]))
+    else:
+        part = work((rp["shape"], rp["spelling"], rp["via_client"], [rp["password"]]))
     print(json.dumps([v["detail"] for v in part.violations], indent=1, default=repr))
     return 1 if part.violations else 0
